@@ -80,7 +80,8 @@ func runReqScenario(c *Ctx, cfg reqScenarioCfg) {
 				}
 			}
 		}
-		// attach to every transmission the moment it completed, and look at them in time order
+		// attach to every transmission the moment the protocol handed it to the pipe (which is when its retry timer is
+		// re-armed; for a held pipe the completion comes later), and look at them in time order
 		type timedEv struct {
 			ev event
 			t  time.Time
@@ -91,7 +92,7 @@ func runReqScenario(c *Ctx, cfg reqScenarioCfg) {
 			if ev.kind == "tx" {
 				t := now
 				if txi < len(e.lastTx) {
-					t = e.lastTx[txi].T
+					t = e.lastTx[txi].T0
 				}
 				txi++
 				txs = append(txs, timedEv{ev, t})
@@ -361,6 +362,49 @@ func runReqScenario(c *Ctx, cfg reqScenarioCfg) {
 	e.Finish()
 }
 
+// directed (C18, C03): a Send still waiting for a pipe, and a Recv on the same context whose deadline is shorter.
+// The Recv's expiry cancels the request (context.cancel stops the send timer and dequeues the context): the Send must
+// give up too — it must not stay blocked beyond its own deadline.
+func runReqCrossDeadline(c *Ctx, sendMs, recvMs int, busyPeer bool) {
+	e := NewExec(c, "m.req", req.NewProtocol(), "req")
+	e.timed, e.canonIDs = true, true
+	if busyPeer { // a connected peer whose only pipe is occupied by another context's slow send
+		e.AddPipe(901)
+		e.Hold(901, true)
+		e.OpenCtx(1)
+		e.Send(1, nil, []byte{0x71, 0, 1})
+	}
+	e.SetOpt(0, mangos.OptionRetryTime, "60000", time.Minute)
+	e.SetOpt(0, mangos.OptionSendDeadline, fmt.Sprint(sendMs), time.Duration(sendMs)*time.Millisecond)
+	e.SetOpt(0, mangos.OptionRecvDeadline, fmt.Sprint(recvMs), time.Duration(recvMs)*time.Millisecond)
+	t0 := time.Now()
+	returned := map[int]string{}
+	look := func() {
+		for _, ev := range splitEvents(lastObs(e)) {
+			if ev.kind == "ret" {
+				returned[ev.call] = ev.err
+			}
+		}
+	}
+	snd := e.Send(0, nil, []byte{0x71, 0, 2})
+	look()
+	rcv := e.Recv(0)
+	look()
+	e.Sleep(recvMs + 30)
+	look()
+	if sendMs > 0 {
+		e.Sleep(sendMs + 60)
+		look()
+		if _, ok := returned[snd]; !ok && !e.broken {
+			c.Violate(fmt.Sprintf("REQ: a Send with a send deadline of %d ms is still blocked %v after it was called (a Recv on the same context timed out after %d ms in between: its expiry stopped the Send's timer and took the context off the send queue)", sendMs, time.Since(t0).Round(time.Millisecond), recvMs), e.Replay())
+		}
+	}
+	if _, ok := returned[rcv]; !ok && !e.broken {
+		c.Violate(fmt.Sprintf("REQ: a Recv with a receive deadline of %d ms is still blocked %v after it was called", recvMs, time.Since(t0).Round(time.Millisecond)), e.Replay())
+	}
+	e.Finish()
+}
+
 func runC03(c *Ctx) {
 	c.Rep.Rule = "random histories on a real REQ protocol instance whose REP peers are played by the harness at message level: Send/Recv/Close on 1-3 contexts, replies carrying the current / a stale, cancelled, answered or other context's / a never-issued id, ids without the request bit, short bodies, duplicates, on any of 1-3 pipes; " +
 		"ids canonicalised to 0x80000000|k; every operation is checked against the Lean machine and every delivered reply against the context's current request; class = (operation, shape of outcome)"
@@ -375,6 +419,8 @@ func runC03(c *Ctx) {
 	for i := 0; i < n/4+2; i++ {
 		runReqScenario(c, reqScenarioCfg{nops: 40, retryMs: 60000, deadlines: true})
 	}
+	runReqCrossDeadline(c, 150, 40, false)
+	runReqCrossDeadline(c, 0, 40, true)
 }
 
 func runC04(c *Ctx) {
